@@ -55,6 +55,21 @@ Theorem C07_compound_assignment : forall var o e, clean e = true -> accepts_comp
 Proof. exact compound_spec. Qed.
 Print Assumptions C07_compound_assignment.
 
+(* P6'  which runtime helper the emitter calls: `_i64` helpers exactly for int // int and int % int,
+        `py_div` always for `/`, integer `.pow` exactly when the documented result is int; an operand
+        is cast to f64 exactly when it is int and the result is float — so the value computed is the
+        one C04 proves about that helper *)
+Theorem C07_helper_choice : forall o l r, clean (ABin o l r) = true ->
+  let dl := doc_ty l in let dr := doc_ty r in
+  let d := doc_ty (ABin o l r) in
+  let isf := match d with DFloat => 1 | DInt => 0 end in
+  emit_shape o l r =
+  [ match o with ODiv => 2 | OMod => 30 + isf | OFloorDiv => 40 + isf | OPow => 50 + isf | _ => 1 end;
+    bcode (match d, dl with DFloat, DInt => true | _, _ => false end);
+    bcode (match d, dr with DFloat, DInt => true | _, _ => false end) ].
+Proof. exact emit_shape_spec. Qed.
+Print Assumptions C07_helper_choice.
+
 (* P7'  known findings tail-cast-pow and tail-cast-lt are real in the model: `(2.5 + a) ** x`
         and `(x + a) < y` type-check but the emitted tokens are not Rust (Paren is dropped and
         the left operand's text ends in a cast) *)
